@@ -218,14 +218,59 @@ func (f *frame) contractCallEnv(ct *Contract, key string, fn *ssa.Function, extr
 	if len(res) == 1 {
 		vars["result"] = res[0]
 	}
-	// allocation frontier moves on (callee may allocate)
-	nr := u.nextRef(f.cur)
-	nn := u.declare("nextRef_c", sInt)
-	u.assume(le(nr, nn))
-	u.setGhost(f.cur, "nextRef", nn)
-	// fresh results get their own backing store; handled through the heap frame: element heaps
-	// are re-versioned for references at or above the old frontier
-	f.reversionFresh(nr)
+	// results declared fresh(...) by the contract get their own new backing object
+	for _, e := range ct.Ensures {
+		for _, fx := range freshArgs(e.X) {
+			if fx.Op != "ident" {
+				continue
+			}
+			rv, ok := vars[fx.Tok]
+			if !ok {
+				continue
+			}
+			rt, ok := rv.(Term)
+			if !ok {
+				continue
+			}
+			switch rt.T.K {
+			case KSlice:
+				el := rt.T.Go.Underlying().(*types.Slice).Elem()
+				r := u.alloc(f.cur, types.NewPointer(types.NewArray(el, 0)))
+				hn, hs, es := u.elemHeapName(el)
+				h := u.heap(f.cur, hn, hs)
+				inner := u.fresh("fresh_arr")
+				u.items = append(u.items, fmt.Sprintf("(declare-const %s (Array Int %s))", inner, u.tc.smt(es)))
+				u.setHeap(f.cur, hn, hs, sto(h, r, Term{inner, nil}))
+				u.assume(eq(sliceRef(rt), r))
+			case KRef:
+				el := u.pointee(rt)
+				r := u.alloc(f.cur, rt.T.Go)
+				u.assume(eq(rt, r))
+				if stt, ok := el.Underlying().(*types.Struct); ok {
+					for i := 0; i < stt.NumFields(); i++ {
+						hn, hs, fs := u.fieldHeapName(el, i)
+						h := u.heap(f.cur, hn, hs)
+						v := u.declare("fresh_"+stt.Field(i).Name(), fs)
+						if fs.K == KSlice {
+							u.assume(u.wfSlice(v))
+						}
+						u.setHeap(f.cur, hn, hs, sto(h, r, v))
+					}
+				} else if at, ok := el.Underlying().(*types.Array); ok {
+					hn, hs, es := u.elemHeapName(at.Elem())
+					h := u.heap(f.cur, hn, hs)
+					inner := u.fresh("fresh_arr")
+					u.items = append(u.items, fmt.Sprintf("(declare-const %s (Array Int %s))", inner, u.tc.smt(es)))
+					u.setHeap(f.cur, hn, hs, sto(h, r, Term{inner, nil}))
+				} else {
+					hn, hs, bs := u.boxHeapName(el)
+					h := u.heap(f.cur, hn, hs)
+					v := u.declare("fresh_box", bs)
+					u.setHeap(f.cur, hn, hs, sto(h, r, v))
+				}
+			}
+		}
+	}
 	post := &SpecEnv{u: u, vars: vars, st: f.cur, old: oldSt, pkg: pkg, bound: map[string]Term{}, ctx: "call " + key}
 	for _, e := range ct.Ensures {
 		t := post.evalBool(e.X)
@@ -245,18 +290,15 @@ func shortKey(k string) string {
 	return sanitize(k)
 }
 
-// reversionFresh gives every element/box/field heap a new version that agrees with the old one below
-// the old allocation frontier. (What the callee allocated is described by its postcondition.)
-func (f *frame) reversionFresh(oldFrontier Term) {
-	u := f.u
-	for _, h := range sortedKeys(f.cur.heaps) {
-		if !(strings.HasPrefix(h, "E.") || strings.HasPrefix(h, "B.") || strings.HasPrefix(h, "H.")) {
-			continue
-		}
-		old := f.cur.heaps[h]
-		nw := u.havocHeap(f.cur, h)
-		u.assume(Term{fmt.Sprintf("(forall ((q_r Int)) (! (=> (< q_r %s) (= (select %s q_r) (select %s q_r))) :pattern ((select %s q_r))))", oldFrontier.S, nw.S, old.S, nw.S), sBool})
+// freshArgs returns the arguments of fresh(...) that occur as top-level conjuncts of x.
+func freshArgs(x *SX) []*SX {
+	switch {
+	case x.Op == "bin" && x.Tok == "&&":
+		return append(freshArgs(x.Args[0]), freshArgs(x.Args[1])...)
+	case x.Op == "call" && x.Args[0].Op == "ident" && x.Args[0].Tok == "fresh" && len(x.Args) == 2:
+		return []*SX{x.Args[1]}
 	}
+	return nil
 }
 
 // applyModifies havocs the locations named in the modifies clauses (evaluated in the pre-state).
@@ -930,10 +972,25 @@ func (u *Unit) scanCallMods(c *ssa.CallCommon, add func(string, ssa.Value, bool)
 				}
 			}
 		}
-		// every contract call moves the allocation frontier and re-versions heaps
-		for h := range u.eng.heapSorts {
-			if strings.HasPrefix(h, "E.") || strings.HasPrefix(h, "B.") || strings.HasPrefix(h, "H.") {
-				add(h, nil, false)
+		for _, e := range ct.Ensures {
+			if len(freshArgs(e.X)) > 0 && fn != nil {
+				rt := fn.Signature.Results()
+				for k := 0; k < rt.Len(); k++ {
+					switch t := rt.At(k).Type().Underlying().(type) {
+					case *types.Slice:
+						hn, hs, _ := u.elemHeapName(t.Elem())
+						u.eng.heapSorts[hn] = hs
+						add(hn, nil, false)
+					case *types.Pointer:
+						if stt, ok := t.Elem().Underlying().(*types.Struct); ok {
+							for i := 0; i < stt.NumFields(); i++ {
+								hn, hs, _ := u.fieldHeapName(t.Elem(), i)
+								u.eng.heapSorts[hn] = hs
+								add(hn, nil, false)
+							}
+						}
+					}
+				}
 			}
 		}
 	}
